@@ -352,6 +352,13 @@ def run(prop_id, tier, seed, replay=None):
             rc2, cov2 = hsrace.run_race("C01", tier, seed)
             hsrace.merge_evidence("C01", cov2)
             rc = max(rc, rc2)
+        if prop_id == "C02" and not replay and tier in ("quick", "thorough"):
+            # "any fork depth inside the in-memory window": the window itself (headerlist.BoundedMemoryChain,
+            # ring + skip-list ancestors) is specified in specs/HeaderList and bound to the real structure
+            from . import headerlist
+            rc2, cov2 = headerlist.run_slice("C02", tier, seed)
+            headerlist.merge_evidence("C02", cov2)
+            rc = max(rc, rc2)
         return rc
     finally:
         shutil.rmtree(sc, ignore_errors=True)
